@@ -233,7 +233,15 @@ func (l *Lab) template(gcfg gen.Cfg, rec Recipe) (*template, error) {
 	rng := gen.NewRng(int64(len(rec))*7919 + 13)
 	model := gen.NewModel(gcfg.HashSize(), gcfg.ExactLog)
 	for i, filler := range rec {
-		t := gen.GenTxn(rng, i+1, model, gen.TxnOpts{Keys: l.Keys, MaxRefs: 2, Journal: true, DelP: 0.2, Filler: filler})
+		var t *gen.Txn
+		switch filler {
+		case -1: // creates two refs, no logs, no journal
+			t = &gen.Txn{ID: i + 1, Refs: []gen.Ref{{Name: "refs/cancel/a", Kind: gen.KVal, Value: gen.IDHash(i+1, 0, gcfg.HashSize())}, {Name: "refs/cancel/b", Kind: gen.KSym, Target: "refs/heads/k00"}}}
+		case -2: // deletes them again: a range holding a -1 and a -2 table compacts to nothing
+			t = &gen.Txn{ID: i + 1, Refs: []gen.Ref{{Name: "refs/cancel/a", Kind: gen.KDel}, {Name: "refs/cancel/b", Kind: gen.KDel}}}
+		default:
+			t = gen.GenTxn(rng, i+1, model, gen.TxnOpts{Keys: l.Keys, MaxRefs: 2, Journal: true, DelP: 0.2, Filler: filler})
+		}
 		ui, err := stx.Apply(st, t)
 		if err != nil {
 			stx.SafeClose(st)
